@@ -96,18 +96,29 @@ def plan(seed, tier="quick", index=0):
     alpha = _sizes(rng, L)
     stratum = rng.choice(["crash-enum", "crash-enum", "crash-enum", "io-errors", "fault-free"])
     nb = rng.choice([1, 1, 2, 2, 3, 4, 6])
+    long_run = rng.random() < 0.03
+    if long_run:
+        # a long-lived store: many batches, many files (numbering past blk00099), fault-free
+        stratum = "fault-free"
+        nb = rng.choice([24, 40, 70])
+        L = rng.choice([64, 100])
+        alpha = _sizes(rng, L)
     batches = []
     for b in range(nb):
         k = rng.choice([0, 1, 1, 2, 2, 3, 4])
         sizes = [rng.choice(alpha) if rng.random() < 0.8 else rng.randrange(0, L - 7) for _ in range(k)]
         batches.append({"sizes": sizes, "restart_before": b > 0 and rng.random() < 0.5})
     init = rng.choice(["empty", "missing", "missing-nested", "prepopulated", "prepopulated", "many-files"])
+    if long_run and rng.random() < 0.5:
+        init = "hundred-files"
     pre = []
     if init == "prepopulated":
         pre = [rng.choice(alpha) for _ in range(rng.randrange(1, 6))]
     elif init == "many-files":
         # 9..13 full files so that numbering crosses blk00009 -> blk00010
         pre = [L - 8] * rng.choice([9, 10, 11, 12]) + [rng.choice(alpha) for _ in range(rng.randrange(0, 2))]
+    elif init == "hundred-files":
+        pre = [L - 8] * rng.choice([98, 99, 100, 101])
     strays = {}
     if init in ("empty", "prepopulated", "many-files") and rng.random() < 0.3:
         for n in rng.sample(["README.txt", "blk00000.dat.bak", ".lock", "blk.tmp", "zzz", "blk00003.dat.part"], rng.randrange(1, 3)):
@@ -133,6 +144,12 @@ def plan(seed, tier="quick", index=0):
 
 # --------------------------------------------------------------------------- one execution
 def _block(seed, b, i, size):
+    if (seed + 7 * b + i) % 9 == 0 and size >= 8:
+        # a block whose bytes look like the start of a record (magic + plausible length)
+        head = bytes.fromhex("f9beb4d9") + (size // 2).to_bytes(4, "little")
+        return (head * (size // 8 + 1))[:size]
+    if (seed + 7 * b + i) % 9 == 1:
+        return bytes(size)
     out = bytearray()
     c = 0
     tag = b"blk<%d,%d>" % (b, i)
